@@ -3,6 +3,7 @@ package rockredis
 import (
 	"encoding/binary"
 	"errors"
+	"strings"
 	"time"
 
 	"github.com/youzan/ZanRedisDB/common"
@@ -338,4 +339,10 @@ func uniqueMembersKeepLast(args []common.ScorePair) []common.ScorePair {
 		}
 	}
 	return out
+}
+
+// tableMetricLabel is a table name as a metric label value: the metrics library panics on label
+// values that are not valid UTF-8, and table names are arbitrary client bytes.
+func tableMetricLabel(table []byte) string {
+	return strings.ToValidUTF8(string(table), "?")
 }
